@@ -212,6 +212,9 @@ func solveAll(rs []*Result, sec int, two bool, workers int) {
 						break
 					}
 					r.Output += fmt.Sprintf("[%s] %s\n", sp.name, firstLines(out, 3))
+					if r.ScriptQF != "" {
+						break // first solver undecided on a quantified context: try the relaxation next
+					}
 				}
 				if r.Status == "unknown" && r.ScriptQF != "" {
 					fileQ := filepath.Join(dir, fmt.Sprintf("o%d.qf.smt2", i))
@@ -235,6 +238,20 @@ func solveAll(rs []*Result, sec int, two bool, workers int) {
 						}
 					}
 					os.Remove(fileQ)
+					if r.Status == "unknown" {
+						for _, sp := range solvers[1:] {
+							st, out, ms := runSolver(sp, file, sec)
+							total += ms
+							if st == "unsat" {
+								r.Status, r.Solver = "unsat", sp.name
+								break
+							}
+							if st == "sat" {
+								r.Status, r.Solver, r.Model = "sat", sp.name, out
+								break
+							}
+						}
+					}
 				}
 				if two && r.Status == "unsat" && r.Second == "" {
 					r.Status = "unknown"
